@@ -106,6 +106,17 @@ def main():
                 meta = json.load(open(os.path.join(d, 'meta.json')))
             except Exception:
                 pass
+            try:
+                prev = json.load(open(os.path.join(dst, 'meta.json'))).get('confirmed_by_coordinator', {})
+            except Exception:
+                prev = {}
+            if a.skip_suite:
+                # re-validation after a check was strengthened: keep the suite result of the first validation
+                for k in ('suite', 'suite_passes'):
+                    if k in prev:
+                        r[k] = prev[k]
+                if prev.get('checks'):
+                    r['checks_before_strengthening'] = prev.get('checks_before_strengthening', prev['checks'])
             meta['confirmed_by_coordinator'] = r
             meta['repo_head'] = head
             json.dump(meta, open(os.path.join(dst, 'meta.json'), 'w'), indent=1)
